@@ -13,6 +13,15 @@ def run_case(c):
                 apply_track(t, a, k)
             except Exception:
                 pass
+        # the same chord stamped into the track again as copies (NoteContainer built from another container, and '+')
+        from mingus.containers import NoteContainer
+        src = [e[2] for b in t.bars for e in b.bar if e[2] is not None and len(e[2]) > 0][:2]
+        for k, nc in enumerate(src):
+            try:
+                t.add_notes(NoteContainer(nc), 4)
+                t.add_notes(NoteContainer() + nc, 8)
+            except Exception:
+                pass
     rec = call("build", {"instr": c["instr"], "n": len(c["acts"])}, build, lambda _: 0)
     rec["obs"] = track_proj(t)
     R.append(rec)
